@@ -8,6 +8,7 @@ import re
 
 import common
 import pyir_circuit
+import pyir_classify
 import pyir_translate
 
 THEOREMS = ["consume_ir_correct", "remaining_ir_correct", "init_ir_correct", "ir_run_correct", "source_meets_spec"]
@@ -81,14 +82,40 @@ def circuit_tie(chk):
             "methods": sorted(meths), "event_names": used}
 
 
+CLASSIFY_THEOREMS = ["classify_ir_correct", "default_classifier_ir", "strict_classifier_ir", "source_marker_wins", "coerce_ir_correct",
+                     "http_classifier_ir"]
+
+
+def classify_tie(chk):
+    """classify.py (_classify, default_classifier, strict_classifier) and extras/http.py (_coerce_status, http_classifier)
+    -> PyIRC decision programs + obligations
+    (coq/templates/ClassifyIRProofs.v.in): the translated function is Classify.classify for every exception object."""
+    out = os.path.join(chk.workdir, "ClassifyIR.v")
+    tpl = os.path.join(common.COQ, "templates", "ClassifyIRProofs.v.in")
+    try:
+        prog = pyir_classify.generate(os.path.join(common.REPO, "src"), out, tpl)
+    except pyir_translate.TranslationError as e:
+        return {"ok": False, "stage": "translate", "detail": f"redress/classify.py or extras/http.py is outside the translated fragment: {e}"}
+    except (OSError, SyntaxError) as e:
+        return {"ok": False, "stage": "translate", "detail": f"redress/classify.py could not be read: {e}"}
+    rc, stdout, stderr, wall = common.run(["coqc", "-Q", common.THEORIES, "Redress", "-w", "none", out], 600, cwd=chk.workdir)
+    if rc != 0:
+        return {"ok": False, "stage": "proof", "theorem": "classify_ir_correct",
+                "detail": f"obligation on the translated source no longer checks: {stderr.strip()[-600:]}", "ir": {"_classify": prog}}
+    return {"ok": True, "stage": "done", "theorems": CLASSIFY_THEOREMS, "closed_under_global_context": stdout.count("Closed under the global context"),
+            "seconds": round(wall, 1), "functions": ["_classify", "default_classifier", "strict_classifier", "extras.http._coerce_status",
+                                                     "extras.http.http_classifier"],
+            "not_translated": ["extras/sqlstate.py", "extras/pyodbc.py (regular-expression search)", "optional-library classifiers"]}
+
+
 def report(chk, tie, name, searched):
     """shared bookkeeping: coverage, obligations, and the violation when the tie is broken and nothing else was found"""
     chk.coverage["source_translation"] = {k: v for k, v in tie.items() if k != "ir"}
-    n = len(tie.get("theorems") or (CIRCUIT_THEOREMS if name == "circuit" else THEOREMS))
+    n = len(tie.get("theorems") or {"circuit": CIRCUIT_THEOREMS, "classify": CLASSIFY_THEOREMS}.get(name, THEOREMS))
     chk.coverage["obligations"] = chk.coverage.get("obligations", 0) + n
     if tie["ok"]:
         chk.coverage["discharged"] = chk.coverage.get("discharged", 0) + n
-        mod = "CircuitIR" if name == "circuit" else "BudgetIR"
+        mod = {"circuit": "CircuitIR", "classify": "ClassifyIR"}.get(name, "BudgetIR")
         chk.coverage["theorems"] = list(chk.coverage.get("theorems", [])) + [f"{mod}.{t}" for t in tie["theorems"]]
     elif not chk.violations:
         chk.violation({"kind": "source-translation", "what": tie["detail"], "stage": tie["stage"],
